@@ -604,14 +604,17 @@ func (pool *hostConnPool) connect() (err error) {
 
 	// add the Conn to the pool
 	pool.mu.Lock()
-	defer pool.mu.Unlock()
 
 	if pool.closed {
+		// do not close the connection while holding pool.mu: when the transport's Close
+		// reports an error, closeWithError hands it to pool.HandleError, which locks pool.mu
+		pool.mu.Unlock()
 		conn.Close()
 		return nil
 	}
 
 	pool.conns = append(pool.conns, conn)
+	pool.mu.Unlock()
 
 	return nil
 }
